@@ -6,8 +6,10 @@ import (
 	"crypto/sha256"
 	"encoding/base64"
 	"encoding/hex"
+	"encoding/json"
 	"errors"
 	"fmt"
+	"sort"
 	"strings"
 	"time"
 
@@ -424,7 +426,10 @@ func runC09(c *Case) {
 				// ---- AUTHENTICATE variants
 				valid := c09Sign(chosen, authid, challenge, false)
 				rkey := chosen + "|" + authid
-				variant := pick(r, []string{"valid", "valid", "valid", "wrongkey", "replay", "replay", "truncated", "bitflip", "empty", "garbage", "othermsg", "silence"})
+				variant := pick(r, []string{"valid", "valid", "valid", "wrongkey", "replay", "replay", "truncated", "bitflip", "empty", "garbage", "othermsg", "silence", "derived", "derived"})
+				if variant == "derived" && chosen != "wampcra" {
+					variant = "wrongkey"
+				}
 				if _, have := replayStore[rkey]; variant == "replay" && !have {
 					variant = "valid"
 				}
@@ -453,6 +458,28 @@ func runC09(c *Case) {
 						sig = string(b)
 					}
 					good = good && sig == valid
+				case "derived":
+					// a key that anybody can compute from the CHALLENGE itself (one of the fields of the challenge string,
+					// the string, the salt): whoever is asking, known authid or not, this must never be accepted
+					chal, _ := canon.AsStr(challenge.Extra["challenge"])
+					keys := []string{chal, authid, ""}
+					var fields map[string]any
+					if json.Unmarshal([]byte(chal), &fields) == nil {
+						for _, v := range fields {
+							keys = append(keys, fmt.Sprint(v))
+						}
+					}
+					if salt, _ := canon.AsStr(challenge.Extra["salt"]); salt != "" {
+						keys = append(keys, salt)
+					}
+					sort.Strings(keys)
+					key := pick(r, keys)
+					mac := hmac.New(sha256.New, []byte(key))
+					mac.Write([]byte(chal))
+					sig, good = base64.StdEncoding.EncodeToString(mac.Sum(nil)), false
+					if u := c09Users[authid]; u != nil && key == u.secret {
+						sig, good = valid, c09Users[authid] != nil
+					}
 				case "empty":
 					sig, good = "", false
 				case "garbage":
